@@ -213,7 +213,7 @@ static void tree_case(cbor_item_t* root, const char* origin) {
 }
 
 static void ro_setup(void) {
-  if (strcmp(O.prop, "C18")) vh_die("driver ro: --prop must be C18");
+  if (strcmp(O.prop, "C18") && strcmp(O.prop, "C12")) vh_die("driver ro: --prop must be C18 or C12");
   ref_selftest();
   ar_install();
   ar_reset();
@@ -318,8 +318,95 @@ static void ro_case_big(int kind) {
   vh_nontrivial(vh_hash(desc, 2));
 }
 
+
+/* ------------------------------------------------------------------ C12: an out-of-range index is refused without touching memory
+ * The array, its members and the value offered all live in the write-protected zone while cbor_array_replace / _set /
+ * _get are called with indices from size upwards (set: from size + 1, since size appends). A store into any of them -
+ * including one undone before returning - faults and is attributed. descriptor: 'X' + u64 case + u64 seed */
+static uint64_t g_refused_calls[3], g_refused_cases;
+static void ro_case_refused(uint64_t u, uint64_t seed) {
+  uint8_t desc[17] = {'X'};
+  for (int i = 0; i < 8; i++) { desc[1 + i] = (uint8_t)(u >> (56 - 8 * i)); desc[9 + i] = (uint8_t)(seed >> (56 - 8 * i)); }
+  if (!vh_case(desc, 17)) return;
+  ar_reset();
+  ar_use_zone(0);
+  /* u enumerates: capacity 0..8, fill 0..cap, definite / indefinite, what the value is (0 fresh integer, 1 fresh text,
+   * 2 fresh array with members, 3 a member of the array, 4 the array itself, 5 an integer lent with cbor_move) */
+  unsigned cap = (unsigned)(u % 9), fill = (unsigned)((u / 9) % 9), indef = (unsigned)((u / 81) & 1), vk = (unsigned)((u / 162) % 6);
+  if (fill > cap) fill = cap;
+  cbor_item_t* arr = indef ? cbor_new_indefinite_array() : cbor_new_definite_array(cap);
+  if (!arr) vh_die("ro refused: building the array failed");
+  for (unsigned i = 0; i < fill; i++) { cbor_item_t* m = i & 1 ? cbor_build_string("member") : cbor_build_uint16((uint16_t)(300 + i)); if (!m || !cbor_array_push(arr, m)) vh_die("ro refused: filling the array failed"); cbor_decref(&m); }
+  if (vk == 3 && fill == 0) vk = 0;
+  cbor_item_t* value = NULL;
+  switch (vk) {
+    case 0: case 5: value = cbor_build_uint32(70000); break;
+    case 1: value = cbor_build_string("offered"); break;
+    case 2: value = cbor_new_definite_array(2); { cbor_item_t* k = cbor_build_uint8(1); (void)cbor_array_push(value, k); cbor_decref(&k); } break;
+    case 3: value = cbor_array_get(arr, fill / 2); break;
+    default: value = cbor_incref(arr);
+  }
+  if (!value) vh_die("ro refused: building the value failed");
+  if (vk == 5) (void)cbor_move(value); /* reference count 0: the callee is to take the only reference, if it takes any */
+  size_t size = cbor_array_size(arr);
+  struct vh_buf d0 = {0}, d1 = {0};
+  walk_dump_item(arr, &d0, WD_REFCOUNTS | WD_IDENTITY);
+  size_t rc_value = cbor_refcount(value);
+  struct vh_rng r;
+  vh_rng_seed(&r, seed * 0xc12 + u);
+  const size_t idx[] = {size, size + 1, size + 2, size + 7, 1000, (size_t)1 << 32, ((size_t)1 << 32) + (size ? size - 1 : 0), (size_t)1 << 61, ((size_t)1 << 61) + (size ? size - 1 : 0), SIZE_MAX, SIZE_MAX - 1,
+                        size + 1 + (size_t)vh_below(&r, 1u << 20), (size_t)vh_rand(&r) | size};
+  static const char* const opn[3] = {"cbor_array_replace", "cbor_array_set", "cbor_array_get"};
+  for (size_t k = 0; k < sizeof idx / sizeof idx[0]; k++) {
+    for (int op = 0; op < 3; op++) {
+      size_t ix = idx[k];
+      if (ix < size || (op == 1 && ix == size)) continue; /* in range (set at size appends) */
+      if (op == 2 && vk == 5) { /* fine: get takes no value */ }
+      ar_freeze(true);
+      ar_use_zone(1);
+      g_faults = 0; g_in_op = 1;
+      bool refused = op == 0 ? !cbor_array_replace(arr, ix, value) : op == 1 ? !cbor_array_set(arr, ix, value) : cbor_array_get(arr, ix) == NULL;
+      g_in_op = 0;
+      ar_use_zone(0);
+      int faults = (int)g_faults;
+      ar_freeze(false);
+      g_refused_calls[op]++;
+      if (!refused) { vh_violation("out-of-range-accepted", "%s(index %zu) on %s array of size %zu (capacity %zu) did not refuse", opn[op], ix, indef ? "an indefinite" : "a definite", size, cbor_array_allocated(arr)); goto out; }
+      if (faults) {
+        char where[160];
+        field_of((void*)g_fault_addr, where, sizeof where);
+        static const char* const vn[] = {"a fresh integer", "a fresh text string", "a fresh array", "a member of the array", "the array itself", "an integer lent with cbor_move"};
+        vh_violation("refusal-touched-memory", "%s(index %zu) on %s array of size %zu was refused but stored to write-protected memory (array, members and the value - %s - are all protected): %s; %d faulting store(s)", opn[op], ix,
+                     indef ? "an indefinite" : "a definite", size, vn[vk], where, faults);
+        goto out;
+      }
+    }
+  }
+  walk_dump_item(arr, &d1, WD_REFCOUNTS | WD_IDENTITY);
+  if (d0.n != d1.n || memcmp(d0.p, d1.p, d0.n) || cbor_refcount(value) != rc_value) vh_violation("refusal-changed-state", "array contents or reference counts differ after refused calls only (size %zu)", size);
+out:
+  vb_free(&d0); vb_free(&d1);
+  if (vk == 5) cbor_incref(value);
+  cbor_decref(&value);
+  cbor_decref(&arr);
+  if (AR_live) vh_violation("leak", "%llu arena block(s) left", (unsigned long long)AR_live);
+  g_refused_cases++;
+  vh_nontrivial(vh_hash(desc, 17));
+}
+static void ro_refused_run(void) {
+  uint64_t n = 9 * 9 * 2 * 6, rounds = O.budget ? O.budget : (O.thorough ? 40 : 4);
+  for (uint64_t u = 0; u < n * rounds; u++) if ((int)(u % (uint64_t)O.nshards) == O.shard) ro_case_refused(u % n, O.seed + u / n);
+  vh_count_dyn("refused.cbor_array_replace", g_refused_calls[0]);
+  vh_count_dyn("refused.cbor_array_set", g_refused_calls[1]);
+  vh_count_dyn("refused.cbor_array_get", g_refused_calls[2]);
+  vh_count_dyn("refused.arrays", g_refused_cases);
+  vh_set_rule("each case is an array (capacity 0..8, fill 0..capacity, definite or indefinite) and a value (fresh integer / text / array, a member, the array itself, an integer lent with cbor_move) built inside an arena zone that is write-protected while cbor_array_replace / _set / _get are called with 13 out-of-range indices (size.., 2^32 and 2^61 aliases of valid slots, SIZE_MAX, random); a store into the zone faults and is attributed to block and field; contents and reference counts compared before / after; non-trivial = all calls made; distinct by case index and seed");
+  vh_set_exhaustive(false);
+}
+
 static void ro_run(void) {
   ro_setup();
+  if (!strcmp(O.prop, "C12")) { ro_refused_run(); return; }
   for (int kind = 0; kind < 5; kind++) if (kind % O.nshards == O.shard) ro_case_big(kind);
   uint64_t nsys = gen_systematic_count();
   uint64_t nrand = O.budget ? O.budget : (O.thorough ? 100000 : 10000);
@@ -348,6 +435,7 @@ static void ro_run(void) {
 static void ro_exec(const uint8_t* d, size_t n) {
   ro_setup();
   if (n == 2 && d[0] == 'B') { ro_case_big(d[1]); return; }
+  if (n == 17 && d[0] == 'X') { uint64_t u = 0, sd = 0; for (int i = 0; i < 8; i++) { u = u << 8 | d[1 + i]; sd = sd << 8 | d[9 + i]; } ro_case_refused(u, sd); return; }
   if (n >= 1 && d[0] == 'D') { ro_case_input(d + 1, n - 1); return; }
   if (n == 17 && d[0] == 'A') { uint64_t u = 0, s = 0; for (int i = 0; i < 8; i++) { u = u << 8 | d[1 + i]; s = s << 8 | d[9 + i]; } ro_case_api(u, s); return; }
   printf("unrecognised descriptor\n");
